@@ -29,6 +29,8 @@ func main() {
 		runRaftsim(os.Args[2:])
 	case "apply":
 		runApply(os.Args[2:])
+	case "cluster":
+		runCluster(os.Args[2:])
 	default:
 		fmt.Fprintln(os.Stderr, "unknown engine", os.Args[1])
 		os.Exit(2)
